@@ -42,9 +42,9 @@ def cp_als_dense_vs_sparse(E, shape, R):
     K0 = O.kruskal(E, "g", shape, R)
     sa, sva = _state(E, Xd, R, K0.copy())
     sb, svb = _state(E, Xs, R, K0.copy())
-    E.true("locals" in sa and "locals" in sb, "both runs complete the sweep")
     if not ("locals" in sa and "locals" in sb):
-        return
+        from symx.core import Unmodelled
+        raise Unmodelled("cp_als internals changed: the final arrange was not reached from cp_als")
     E.true(len(sva.calls) == len(svb.calls), "same number of linear solves")
     for ca, cb in zip(sva.calls, svb.calls):
         E.eq(ca["A"], cb["A"], "same coefficient matrix handed to the solver")
@@ -98,9 +98,14 @@ def _cut_run(E, X, K0, dimorder=None):
     real_arrange = ttb.ktensor.arrange
 
     def arrange(self, *a, **k):
-        loc = sys._getframe(1).f_locals
-        if "U_mttkrp" in loc:
-            raise Cut(dict(loc))
+        fr = sys._getframe(1)
+        if fr.f_code.co_name == "cp_als":
+            loc = dict(fr.f_locals)
+            missing = [k for k in ("M", "fit", "normresidual") if k not in loc]
+            if missing:
+                from symx.core import Unmodelled
+                raise Unmodelled(f"cp_als internals changed: local variable(s) {missing} not found at the final arrange")
+            raise Cut(loc)
         return real_arrange(self, *a, **k)
     ttb.ktensor.arrange = arrange
     try:
@@ -286,9 +291,9 @@ def random_start_same_stream(E, alg, vary):
     for X, pr in variants:
         if alg == "cp_als":
             st, rng, nv, sv = _run(E, X, 1, None, None, "random", pr, True, cut=True)
-            E.true("locals" in st, "the sweep completed")
             if "locals" not in st:
-                return
+                from symx.core import Unmodelled
+                raise Unmodelled("cp_als internals changed: the final arrange was not reached from cp_als")
             outs.append((rng, st["locals"]["M"], st["locals"]["init"] if "init" in st["locals"] else None))
         elif alg == "tucker_als":
             with H.rng(E) as rng, H.nvecs_stub(E):
